@@ -94,7 +94,11 @@ def _run_seed(args):
             known = load_known()
             rules = sorted({f.rule for f in rep.findings if not match_known(known, prop, f)})
         except AnalysisError as e:
-            rules = ["ANALYSIS-ERROR: " + str(e)[:80]]
+            from .common import load_known, match_known
+            known = load_known()
+            rules = sorted({f.rule for f in rep.findings if not match_known(known, prop, f)})
+            if not rules:       # (a located violation is never masked by a later shortfall)
+                rules = ["ANALYSIS-ERROR: " + str(e)[:80]]
     finally:
         shutil.rmtree(tmp, ignore_errors=True)
     detected = bool(rules) and not rules[0].startswith("ANALYSIS-ERROR")
